@@ -756,6 +756,15 @@ pub fn work_list(cfg: &RunCfg) -> WorkList {
     for w in corpus::delegate_groups().iter() {
         fixed.push(Item::new(w, "delegate-groups"));
     }
+    for w in corpus::start_anchor_shapes("(?=)").iter() {
+        fixed.push(Item::new(w, "start-anchor-shapes"));
+    }
+    if cfg.prop == "C01" || cfg.prop == "C02" {
+        // a capture group under {0}, as generated trees (the parser must keep the group; seed S9-C02)
+        for (e, s) in crate::exprgen::zero_repeat_families() {
+            fixed.push(Item::from_tree(e, &s, "zero-repeat-tree"));
+        }
+    }
     // a backreference compared against text whose characters have other widths than the
     // captured ones: needs a capture of two characters and five bytes of text (seed S8-C05)
     for w in ["(..)\\1", "(a.)\\1", "(?=.(..))\\1", "(.a)\\1", "(?i)(a.)\\1", "(..)(?=)\\1", "(?<n>..)\\k<n>"].iter() {
